@@ -7,7 +7,7 @@ HERE = os.path.dirname(os.path.dirname(os.path.abspath(__file__)))
 CHECKS = {
  "C03": ("inproc+fmtref",
          "differential testing of the literal parser against rustc_parse_format over exhaustive bounded enumerations + proptest-generated sequences",
-         "Generated-input search: 1.33M exhaustively enumerated single-placeholder derivations of the std::fmt grammar, all strings up to a length bound over a 27-symbol alphabet, one-edit neighbours and proptest sequences are parsed by derive_more's literal parser (working-tree source, in-process) and by rustc's own parser; placeholders are compared field by field, the effective argument/trait sequence through the where-clause of real expansions, and std-rejected literals must never be delegated. Exploration, not proof: exhaustive only inside the named bounds.",
+         "Generated-input search: 1.66M exhaustively enumerated single-placeholder derivations of the std::fmt grammar, all strings up to a length bound over a 28-symbol alphabet (1-4 byte characters incl. multi-byte whitespace), one-edit neighbours and proptest sequences are parsed by derive_more's literal parser (working-tree source, in-process) and by rustc's own parser; placeholders are compared field by field, the effective argument/trait sequence through the where-clause of real expansions, and std-rejected literals must never be delegated. Exploration, not proof: exhaustive only inside the named bounds.",
          "trusts rustc_parse_format of the installed nightly as the std::fmt reference; harness mounts impl/src/*.rs via #[path] from a content-synchronised mirror of /repo",
          "DESIGN.md section 5 C03"),
 }
@@ -23,7 +23,7 @@ CHECKS["C16"] = ("inproc+proggen",
   "DESIGN.md section 5 C16")
 CHECKS["C18"] = ("inproc",
   "robustness fuzzing of all 50 expanders and the literal parser in-process under catch_unwind in crash-isolated worker processes: exhaustive short literals, adversarial literals, template+mutation+random attribute token streams, all item shapes; panic-site classification (deliberate diagnostic vs internal failure)",
-  "Generated-input search over ~0.85M (quick) inputs: every short string over a 27-symbol alphabet through the literal parser, adversarial long/Unicode/huge-number literals through Display/Debug expansions at every attribute level, documented attribute templates mutated at token-tree level plus random token streams on container/variant/field positions for every attribute-taking derive, and unit/tuple/named/enum/union shapes with exotic field types x all 50 derives. Outcome must be Ok, Err or a panic raised at an explicit panic!/assert! line; worker crashes (stack exhaustion) and super-cubic time on four scaling families are violations. Each distinct failing call site is minimised by token-tree deletion.",
+  "Generated-input search over ~0.85M (quick) inputs: every short string over a 28-symbol alphabet (1-4 byte characters incl. multi-byte whitespace) through the literal parser, adversarial long/Unicode/huge-number literals through Display/Debug expansions at every attribute level, documented attribute templates mutated at token-tree level plus random token streams on container/variant/field positions for every attribute-taking derive, and unit/tuple/named/enum/union shapes with exotic field types x all 50 derives. Outcome must be Ok, Err or a panic raised at an explicit panic!/assert! line; worker crashes (stack exhaustion) and super-cubic time on four scaling families are violations. Each distinct failing call site is minimised by token-tree deletion.",
   "deliberate-vs-internal panic is decided by reading the source line of the panic location in the tree under test; nesting bounded at 64",
   "DESIGN.md section 5 C18")
 
